@@ -30,19 +30,38 @@ def control_entry(node, new):
 '''
 
 
-def classes_from_facts(facts, base_text):
+def class_names(model, module, e, depth=0):
+    """AST class names denoted by the second argument of isinstance: ast.X, tuples, `+` of tuples, and module-level names bound to those."""
+    if isinstance(e, ast.Attribute):
+        return {e.attr}
+    if isinstance(e, ast.Tuple):
+        out = set()
+        for x in e.elts:
+            out |= class_names(model, module, x, depth)
+        return out
+    if isinstance(e, ast.BinOp) and isinstance(e.op, ast.Add):
+        return class_names(model, module, e.left, depth) | class_names(model, module, e.right, depth)
+    if isinstance(e, ast.Name) and model is not None and depth < 5:
+        v = model.module_assigns.get(module, {}).get(e.id)
+        if v is not None:
+            return class_names(model, module, v, depth + 1)
+    return set()
+
+
+def classes_from_facts(facts, base_text, model=None, module=None):
     """AST classes the expression `base_text` is known to be an instance of at this point."""
     out = set()
+    neg = set()
     for (k, p) in facts or ():
-        if not p or k.startswith('<'):
+        if k.startswith('<'):
             continue
         t = ast.parse(k, mode='eval').body
         if isinstance(t, ast.Call) and src(t.func) == 'isinstance' and len(t.args) == 2 and src(t.args[0]) == base_text:
-            c = t.args[1]
-            for x in (c.elts if isinstance(c, ast.Tuple) else [c]):
-                if isinstance(x, ast.Attribute):
-                    out.add(x.attr)
-    return out
+            if p:
+                out |= class_names(model, module, t.args[1])
+            else:
+                neg |= class_names(model, module, t.args[1])
+    return out - neg
 
 
 def id_field_stores(model):
@@ -67,7 +86,7 @@ def id_field_stores(model):
                         if F is None:
                             F = Facts(fi.node)
                         facts = F.facts_at(n)
-                        classes = classes_from_facts(facts, src(x.value))
+                        classes = classes_from_facts(facts, src(x.value), model, fi.module)
                         # enclosing visit_<K>(self, node) handler gives the class of its node parameter
                         if not classes and fi.name.startswith('visit_') and isinstance(x.value, ast.Name) and fi.positional and x.value.id == fi.positional[0]:
                             classes = {fi.name[len('visit_'):]}
@@ -124,7 +143,7 @@ def own(model, rep, control):
             if ext and not bnd:
                 rep.violation('C04.OWN1', where, src(n)[:80], 'store to %s, which is only ever an externally visible name (%s)' % (field, sorted(ext)), key='C04.OWN1|' + key)
             elif fi.qual in RENAME_IMPLS:
-                rep.violation('C04.OWN2', where, src(n)[:80], 'identifier field %s is written on a node of unknown class' % field, key='C04.OWN2|' + key)
+                rep.note('store to .%s on a node whose class is not evident at %s: decided by the evaluation of rename over every reference kind (rename-enum)' % (field, where))
             elif bnd or ext:
                 # attribute of the same name on a non-AST object (e.g. binding.name is a property; options objects): only AST nodes matter.
                 rep.note('store to .%s on a value of unknown class in %s (not an AST node by construction: %s)' % (field, fi.qual, src(n)[:60]))
@@ -320,19 +339,79 @@ def arg(model, rep):
     if not bad:
         rep.ok('C04.ARG', fi.loc(), 'arg_rename_in_place over %d (function kind x parameter) cells' % cells, 'True only for self/cls-like first parameters, *args/**kwargs, positional-only', cells=cells, key='C04.ARG|enum')
     # comprehension arm (python 2 list comprehension variables): isinstance(func, ast.comprehension) -> True is harmless (no callers)
-    # the in-signature stores carry the fact
-    nb = model.func(B + '.NameBinding.rename')
-    F = Facts(nb.node)
-    n = 0
-    for n_ in walk_own(nb.node):
-        if isinstance(n_, ast.Assign) and isinstance(n_.targets[0], ast.Attribute) and n_.targets[0].attr in ('arg', 'id'):
-            facts = F.facts_at(n_)
-            classes = classes_from_facts(facts, src(n_.targets[0].value))
-            if n_.targets[0].attr == 'arg' or (n_.targets[0].attr == 'id' and any((not p) and 'ast.Load' in k for (k, p) in facts or ())):
-                n += 1
-                ok = facts is not None and ('arg_rename_in_place(%s)' % src(n_.targets[0].value), True) in facts
-                rep.check(ok, 'C04.ARG', nb.loc(n_), src(n_), 'only under arg_rename_in_place(node)', 'a parameter is renamed in the signature without the in-place test', key='C04.ARG|store|' + n_.targets[0].attr)
+    # what Binding.rename does to every kind of reference node is decided by evaluation (rename_enum)
+    rename_enum(model, rep)
     rep.floor('C04.ARG', 3)
+
+
+def rename_enum(model, rep):
+    """NameBinding.rename / BuiltinBinding.rename abstractly evaluated on one reference node of every ASDL class that has an identifier field.
+    Afterwards: no externally visible identifier field has changed; a parameter that callers may pass by keyword (arg_rename_in_place False)
+    keeps its spelling in the signature; the binding fields carry the new name."""
+    from ..oracles import asdl
+    OLD, NEW = 'orig', 'NEW'
+    id_by_class = {}
+    for (c, f, q) in identifier_fields():
+        id_by_class.setdefault(c, []).append((f, q))
+
+    def mk(c, variant):
+        attrs = {}
+        for (f, t, q) in asdl()[c].fields:
+            if t == 'identifier':
+                attrs[f] = [OLD, 'other'] if q == '*' else OLD
+            elif q == '*':
+                attrs[f] = []
+            else:
+                attrs[f] = None
+        if c == 'Name':
+            attrs['ctx'] = Obj(variant)
+        if c == 'alias' and variant == 'plain':
+            attrs['asname'] = None
+        if c == 'MatchAs':
+            attrs['pattern'] = None
+        o = Obj(c)
+        o.attrs.update(attrs)
+        o.attrs['namespace'] = Obj('FunctionDef', body=[], name='host')
+        return o
+    n_cells = 0
+    bad_ext, bad_kw, bad_new = [], [], []
+    for bq in (B + '.NameBinding', B + '.BuiltinBinding'):
+        for c in sorted(id_by_class):
+            variants = {'Name': ['Load', 'Store', 'Del', 'Param'], 'alias': ['plain', 'as']}.get(c, [''])
+            for variant in variants:
+                for inplace in ((True, False) if c == 'arg' or (c, variant) == ('Name', 'Param') else (None,)):
+                    node = mk(c, variant)
+                    before = {f: (list(v) if isinstance(v, list) else v) for f, v in node.attrs.items() if any(f == x for (x, _q) in id_by_class[c])}
+                    binding = Obj(bq.split('.')[-1], _name=OLD, _references=[node], _allow_rename=True, _reserved=None)
+                    binding.qual = bq
+                    hooks = dict(std_hooks(), **{'arg_rename_in_place': lambda I, e, args, kw, env: inplace, 'insert': lambda I, e, args, kw, env: (list(args[0]) if isinstance(args[0], list) else []) + [args[1]]})
+                    I = Interp(model, B, hooks)
+                    res = I.explore(lambda: I.call_method(bq, 'rename', binding, [NEW]))
+                    n_cells += 1
+                    label = '%s.rename on a %s%s reference%s' % (bq.split('.')[-1], c, ' (%s)' % variant if variant else '', '' if inplace is None else ', in-place=%s' % inplace)
+                    if len(res) != 1 or res[0][0][0] not in ('return', 'raise'):
+                        raise AnalysisError('UNDECIDED: %s -> %s' % (label, [(r[0], r[2][:2]) for r in res][:3]))
+                    if res[0][0][0] == 'raise':
+                        continue   # a reference kind the renamer refuses: nothing is renamed
+                    for (f, q) in id_by_class[c]:
+                        now = node.attrs.get(f)
+                        was = before[f]
+                        if (c, f) in EXTERNAL:
+                            if now != was:
+                                bad_ext.append('%s: %s.%s changed from %r to %r' % (label, c, f, was, now))
+                        elif inplace is False:
+                            if now != was:
+                                bad_kw.append('%s: the parameter is renamed in the signature (%r -> %r) although callers may pass it by keyword' % (label, was, now))
+                        elif (c, f) in BINDING and c in ('Name', 'FunctionDef', 'AsyncFunctionDef', 'ClassDef', 'arg', 'ExceptHandler', 'MatchAs', 'MatchStar', 'MatchMapping', 'TypeVar',
+                                                        'TypeVarTuple', 'ParamSpec', 'Global', 'Nonlocal') or (c, f) == ('alias', 'asname'):
+                            want = [NEW, 'other'] if q == '*' else NEW
+                            if now != want:
+                                bad_new.append('%s: %s.%s is %r afterwards, expected %r' % (label, c, f, now, want))
+    fi = model.func(B + '.NameBinding.rename')
+    rep.check(not bad_ext, 'C04.OWN1', fi.loc(), 'rename evaluated on %d reference kinds: externally visible fields' % n_cells, 'unchanged', '; '.join(bad_ext[:3]), key='C04.OWN1|rename-enum', cells=n_cells)
+    rep.check(not bad_kw, 'C04.ARG', fi.loc(), 'rename evaluated on parameters that are not renamable in place', 'the signature keeps the spelling (the new name is bound in the body)',
+              '; '.join(bad_kw[:3]), key='C04.ARG|rename-enum|signature', cells=4)
+    rep.check(not bad_new, 'C04.ARG', fi.loc(), 'rename evaluated on %d reference kinds: binding fields' % n_cells, 'carry the new name', '; '.join(bad_new[:3]), key='C04.ARG|rename-enum|new', cells=n_cells)
 
 
 def glob(model, rep):
@@ -348,19 +427,29 @@ def glob(model, rep):
         all(d == '<param>' or (isinstance(d, ast.Constant) and d.value is False) for d in defs.get('rename_globals', []))
     rep.check(ok, 'C04.GLOB', mi.loc(c), 'rename(prefix_globals=%s)' % src(pg), 'prefix on exactly when global renaming is off',
               'new module-level names are not forced to start with an underscore when rename_globals is off (prefix_globals=%s)' % src(pg), key='C04.GLOB|prefix-arg')
+    # the assignment loop, abstractly evaluated on a module-level and a function-level binding (no shape of the loop is assumed)
+    from . import assign_enum
     na = model.func('python_minifier.rename.renamer.NameAssigner.__call__')
-    NF = Facts(na.node)
-    for x in calls(na.node):
-        if isinstance(x.func, ast.Attribute) and x.func.attr == 'available_name':
-            facts = NF.facts_at(x)
-            pfx = kwarg(x, 'prefix', 1)
-            mod_and_prefix = facts is not None and any(p and 'ast.Module' in k and 'namespace' in k for (k, p) in facts) and ('prefix_globals', True) in facts
-            if pfx is not None:
-                rep.check(isinstance(pfx, ast.Constant) and pfx.value == '_' and mod_and_prefix, 'C04.GLOB', na.loc(x), src(x), 'underscore prefix for module-level bindings under prefix_globals',
-                          'prefix %s is not "_" under (module namespace and prefix_globals)' % src(pfx), key='C04.GLOB|prefixed-call')
-            else:
-                neg = facts is not None and any((not p) and 'prefix_globals' in k for (k, p) in facts)
-                rep.check(neg, 'C04.GLOB', na.loc(x), src(x), 'unprefixed names only when not (module namespace and prefix_globals)', 'an unprefixed name can be given to a module-level binding although prefix_globals is set', key='C04.GLOB|plain-call')
+    bad = []
+    n_sc = 0
+    for sc, obs in assign_enum.enumerate_loop(model):
+        n_sc += 1
+        for o in obs:
+            for nm in o['renamed_to']:
+                if not isinstance(nm, str):
+                    bad.append('%s: %s binding renamed to an undetermined name' % (sc, o['where']))
+                elif o['where'] == 'module' and sc['prefix_globals'] and not nm.startswith('_'):
+                    bad.append('prefix_globals=True: module-level binding renamed to %r, which does not start with an underscore (%s)' % (nm, sc))
+                elif nm not in o['tested'] or nm.lstrip('_') == 'a':
+                    bad.append('%s binding renamed to %r, which was not found available in its reservation scope (tested %s; %s)' % (o['where'], nm, o['tested'], sc))
+            if o['where'] == 'function' and any(isinstance(nm, str) and nm.startswith('_') for nm in o['renamed_to']):
+                bad.append('function-level binding given the prefixed name %s (%s)' % (o['renamed_to'], sc))
+            if o['where'] == 'module' and not sc['prefix_globals'] and any(isinstance(nm, str) and nm.startswith('_') for nm in o['renamed_to']):
+                bad.append('prefix_globals=False: module-level binding still given the prefixed name %s' % (o['renamed_to'],))
+    rep.check(not bad, 'C04.GLOB', na.loc(), 'assignment loop evaluated on %d scenarios (prefix switch x profitability x availability x binding kind)' % n_sc,
+              'module-level names carry the underscore exactly under prefix_globals; every assigned name was tested available',
+              'the name-assignment loop %s' % '; '.join(bad[:3]), key='C04.GLOB|assign-loop', cells=2 * n_sc)
+    rep.ok('C04.GLOB', na.loc(), 'unprefixed names', 'function-level bindings and module-level bindings without prefix_globals receive unprefixed candidates', key='C04.GLOB|plain') if not bad else None
     # available_name returns the prefixed candidate it tested
     an = 'python_minifier.rename.renamer.NameAssigner'
     tested = []
